@@ -30,13 +30,16 @@ CFI_PATCHES = ["pushq %rax\n.cfi_adjust_cfa_offset 8\npopq %rax\n.cfi_adjust_cfa
                # a directive in front of a label (an empty block that the assembler folds into the next one) and one behind it
                ".cfi_remember_state\n.Lc:\n.cfi_undefined 40\nnop\n.cfi_restore_state"]
 DATA_PATCH = [b"\x01", b"\x02\x03", b"\x04\x05\x06\x07"]
+# patches that ask for an alignment: in front of a label behind code (the assembler splits there and folds the empty aligned block into the
+# label's block), at the very start, and in front of an instruction
+ALIGN_PATCHES = ["nop\n.align 4\n.La:\nnop", ".align 8\n.Lb:\nnop\nnop", "nop\n.align 2\nnop"]
 
 
 class Case:
     """A module description (pure data), independent of gtirb objects, so that it can be rebuilt identically."""
 
     def __init__(self, rnd, nfun_max=2, with_data=True, with_aux=True, with_cfi=True, mods="ins,del,rep", with_funcs=True, max_mods=3,
-                 closed_tail=False, to_proxy=True, with_lead=False, with_scope=True, with_misc=True, with_ext=False, cfi_patches=False, data_first=0.12, whole_del=0.0, inner_data=0.0, orphan_code=0.0, with_syscall=False, late_entry=0.0):
+                 closed_tail=False, to_proxy=True, with_lead=False, with_scope=True, with_misc=True, with_ext=False, cfi_patches=False, data_first=0.12, whole_del=0.0, inner_data=0.0, orphan_code=0.0, with_syscall=False, late_entry=0.0, align_patches=False):
         self.rnd = rnd
         # bytes in front of the first block that belong to no block (the interval starts at 0x1000 - lead, the blocks at 0x1000)
         self.lead = rnd.choice((1, 2, 5)) if with_lead and rnd.random() < 0.12 else 0
@@ -172,7 +175,7 @@ class Case:
                     continue
                 used.append((off, ln))
                 if x["kind"] == "c":
-                    patch = rnd.choice(PATCHES + (CFI_PATCHES * 4 if cfi_patches else [])).replace("{L}", f"L{rnd.choice(code_idx)}")
+                    patch = rnd.choice(PATCHES + (CFI_PATCHES * 4 if cfi_patches else []) + (ALIGN_PATCHES * 2 if align_patches else [])).replace("{L}", f"L{rnd.choice(code_idx)}")
                 else:
                     patch = rnd.choice(DATA_PATCH) if rnd.random() < 0.75 or x.get("dsym") else rnd.choice(DATA_TEXT_PATCH)
                 whole = t == "del" and off == 0 and ln == self.size(i)
